@@ -20,6 +20,7 @@ RULE = ("histories with up to 5 live handles starting from a random BQM (float64
         "and DiscreteQuadraticModel (copy, relabel_variables / relabel_variables_as_integers(inplace=False), vector round trip; edits set_linear_case, set_quadratic_case, add_variable, relabels in place) as opaque interned states; "
         "7% of the cases are sample-set ALIAS histories (kind ssalias, shared with C14: the future's result object, from_future handles and everything relabel_variables / change_vartype return, "
         "before and after the result exists; every resolved object dumped with its record-sharing class after every event; Model/Alias.v replay + the copy-independence oracle); "
+        "35% of the sample sets are resolved from a future with wait_id() (cached problem id): the instance state beyond the data and wait_id() of every live sample set are compared before / after every copy-producing call; "
         "non-trivial = at least 2 handles and 3 dumps")
 TRUSTED = ["model: coq/theories/Model/{Store,Heap,CopyApi,ChkC19}.v; translators/copy_api.py (fail-closed) -> Gen/Gen_Copy.v (BQM, QM, CQM, SampleSet, DQM, BinaryPolynomial, Variables, VartypeView); DQM / BinaryPolynomial are driven by the worker as opaque interned states (OOpaque: results and edits come from detached clones, no function in Heap.v)", "model: coq/theories/Model/Alias.v for future-backed sample sets (see C14)",
            "snapshot functions of harness/w_c19.py observe every piece of state an edit can reach (public accessors + record bytes)",
